@@ -409,6 +409,10 @@ fn pick_ids(r: &mut Prng, n: usize, space: u8, with_std: bool) -> Vec<u32> {
                 if !with_std && r.chance(1, 2) && set.len() < n {
                     set.insert(1);
                 }
+                // the lower border of the 32-bit id space is a legal term id as well
+                if r.chance(1, 3) && set.len() < n {
+                    set.insert(0);
+                }
             }
             while set.len() < n {
                 let v = if r.chance(1, 4) {
@@ -669,7 +673,8 @@ pub fn gen_facts(r: &mut Prng, cfg: &GenCfg) -> FactSet {
             terms[idx].obsolete = r.chance(4, 5);
             if r.chance(2, 3) {
                 let tgt = r.usize_below(n);
-                if tgt != idx {
+                // id 0 cannot be a replacement target: the binary format encodes "no replacement" as 0
+                if tgt != idx && ids[tgt] != 0 {
                     terms[idx].replacement = Some(ids[tgt]);
                 }
             }
